@@ -6,6 +6,13 @@ timeutils.now replaced by a scripted clock, once per (duration, clock) of the ca
   tokens  st start  sp stop  rs resume  rt restart  sl split  el elapsed()  el:N elapsed(None)  el:<m> elapsed(m)
           lo leftover()  lo:T / lo:F leftover(return_none=...)  ex expired  hs has_started  hp has_stopped
           ss .splits  en __enter__  xt __exit__(None, None, None)
+          xt:V / xt:B  __exit__(type, value, traceback) called directly with the triple of a real, raised-and-caught
+                       ValueError / BaseException-only exception
+          wn[body] / wV[body] / wB[body]   a real `with sw as x: body [; raise ValueError | a BaseException-only class]`
+                       statement executed by the harness (body = '+'-joined tokens, may be empty); it is flattened into the
+                       calls  en, body..., wx | wx:V | wx:B  where wx* is the __exit__ the interpreter makes; its outcome is
+                       None (no exception), PROP:<kind> (the body's exception propagated out of the with statement),
+                       SUPPRESSED (it did not), or EXN:<class> (something else came out)
   numbers in a case (clock readings, durations, maxima) are integers; the implementation gets value/scale as a
   float (scale is a power of two, so float subtraction/comparison is exact) and the outputs are scaled back.
 
@@ -85,8 +92,71 @@ def _call(sw, tok, scale):
     if name == 'hp': return sw.has_stopped()
     if name == 'ss': return sw.splits
     if name == 'en': return sw.__enter__()
-    if name == 'xt': return sw.__exit__(None, None, None)
+    if name == 'xt': return sw.__exit__(*_triple(tok[3:])) if ':' in tok else sw.__exit__(None, None, None)
     raise KeyError(tok)
+
+class BaseOnly(BaseException):
+    """an exception that is not an Exception (like KeyboardInterrupt / GeneratorExit)"""
+
+def _make_exc(kind):
+    return ValueError('raised in the with body') if kind == 'V' else BaseOnly('raised in the with body')
+
+def _triple(kind):
+    try:
+        raise _make_exc(kind)
+    except BaseException as e:
+        return type(e), e, e.__traceback__
+
+def parse_with(tok):
+    """'wV[sp+rs]' -> ('V', ['sp', 'rs'])"""
+    kind = tok[1]
+    inner = tok[tok.index('[') + 1:tok.rindex(']')]
+    return kind, ([t for t in inner.split('+')] if inner else [])
+
+def flat(ops):
+    """the calls a history makes, one token per call (with blocks flattened)"""
+    out = []
+    for tok in ops:
+        if tok[0] == 'w' and '[' in tok:
+            kind, body = parse_with(tok)
+            out.append('en'); out.extend(body); out.append('wx' if kind == 'n' else 'wx:' + kind)
+        else:
+            out.append(tok)
+    return out
+
+def exec_token(tu, sw, tok, scale, pos):
+    """runs one token (a call, or a whole with statement) on the real object; returns the per-call canonical strings"""
+    def one(t):
+        before = pos[0]
+        try:
+            r = _value(tu, sw, _call(sw, t, scale), scale)
+        except Exception as e:
+            r = 'EXN:' + type(e).__name__
+        return '%s;%d;%s' % (r, pos[0] - before, _snapshot(sw, scale))
+    if not (tok[0] == 'w' and '[' in tok):
+        return [one(tok)]
+    kind, body = parse_with(tok)
+    out = []
+    exc = None
+    mark = [pos[0], False]          # [clock position when __exit__ starts, entered?]
+    try:
+        with sw as x:
+            mark[1] = True
+            out.append('%s;%d;%s' % (_value(tu, sw, x, scale), pos[0] - mark[0], _snapshot(sw, scale)))
+            for t in body:
+                out.append(one(t))
+            mark[0] = pos[0]
+            if kind != 'n':
+                exc = _make_exc(kind)
+                raise exc
+        res = 'None' if exc is None else 'SUPPRESSED'
+    except BaseException as e:
+        if not mark[1]:
+            out.append('EXN:%s;%d;%s' % (type(e).__name__, pos[0] - mark[0], _snapshot(sw, scale)))
+            return out
+        res = 'PROP:' + kind if e is exc else 'EXN:' + type(e).__name__
+    out.append('%s;%d;%s' % (res, pos[0] - mark[0], _snapshot(sw, scale)))
+    return out
 
 def _duration(d, scale, dint):
     if d is None or d == 'D': return d
@@ -108,12 +178,7 @@ def run_history(tu, d, ops, clock, scale, dint=False):
             return 'EXN:' + type(e).__name__
         out = []
         for tok in ops:
-            before = pos[0]
-            try:
-                r = _value(tu, sw, _call(sw, tok, scale), scale)
-            except Exception as e:
-                r = 'EXN:' + type(e).__name__
-            out.append('%s;%d;%s' % (r, pos[0] - before, _snapshot(sw, scale)))
+            out.extend(exec_token(tu, sw, tok, scale, pos))
         return out
     finally:
         tu.now = saved
@@ -129,7 +194,7 @@ def impl(c):
 
 def encode(c):
     durs = ','.join('N' if d is None else str(d) for d in c['durs'])
-    return [c['op'], durs, ','.join(c['ops'])] + [','.join(map(str, clock)) for clock in c['clocks']]
+    return [c['op'], durs, ','.join(flat(c['ops']))] + [','.join(map(str, clock)) for clock in c['clocks']]
 
 def project(c, io):
     if c['op'] != 'last': return io
@@ -140,7 +205,7 @@ def project(c, io):
 
 # ----------------------------------------------------------------------------- oracle: the property, read off the call log
 
-ALWAYS_LEGAL = {'st', 'rt', 'en', 'xt', 'hs', 'hp', 'ss'}
+ALWAYS_LEGAL = {'st', 'rt', 'en', 'xt', 'wx', 'hs', 'hp', 'ss'}
 
 def _parse_split(s):
     e, l = s[2:-1].split(',')
@@ -205,6 +270,12 @@ class Ref:
             return None
         if res.startswith('EXN:'): return '%s is legal in state %s but raised %s' % (where, state, res[4:])
         if res.startswith('OTHER') or 'FLOAT:' in res: return '%s returned %s' % (where, res)
+        # ---- the context-manager protocol: __exit__ does not swallow the exception of the with body
+        if name == 'wx':
+            if arg is None and res != 'None': return '%s: a with block whose body did not raise ended with %s' % (where, res)
+            if arg is not None and res != 'PROP:' + arg:
+                return '%s: the exception raised in the with body did not propagate out of the with statement (%s)' % (where, res)
+        if name == 'xt' and res not in ('None', 'False'): return '%s: __exit__ returned %s' % (where, res)
         # ---- elapsed at this call, as the property defines it
         def elapsed_candidates():
             """admissible elapsed values (None = any non-negative value: the clock went backwards)"""
@@ -278,9 +349,9 @@ class Ref:
         elif name == 'rt':
             if not consumed: return '%s: restart did not read the clock' % where
             state, start_r, stop_r, splits = 'R', consumed, (), ()
-        elif name in ('sp', 'xt'):
+        elif name in ('sp', 'xt', 'wx'):
             if state == 'R':
-                if not consumed: return '%s: stop did not read the clock' % where
+                if not consumed: return '%s: %s of a running watch did not stop it (no clock reading taken)' % (where, 'stop' if name == 'sp' else '__exit__')
                 state, stop_r = 'P', consumed
         elif name == 'rs':
             state = 'R'
@@ -297,7 +368,7 @@ class Ref:
 def check_history(d, ops, clock, log):
     """d: None | int (scaled); log: per-call canonical strings.  Returns None or a message."""
     ref = Ref(d)
-    for tok, entry in zip(ops, log):
+    for tok, entry in zip(flat(ops), log):
         msg = ref.feed(clock, tok, entry)
         if msg: return msg
     return None
@@ -317,7 +388,7 @@ def oracle(c, io):
                 return 'StopWatch(%r) raised %s' % (d, run[4:])
             if run.startswith('HARNESS'): return run
             log = run.split('|') if run else []
-            if len(log) != len(c['ops']): return 'harness: %d outcomes for %d calls' % (len(log), len(c['ops']))
+            if len(log) != len(flat(c['ops'])): return 'the history made %d calls, %d expected (did __enter__ raise?): %s' % (len(log), len(flat(c['ops'])), run[:200])
             msg = check_history(dd, c['ops'], clock, log)
             if msg: return 'duration %r, clock %s...: %s' % (d, clock[:8], msg)
     return None
@@ -339,11 +410,17 @@ PATTERNS = {'zero': [0], 'tiny': [1], 'large': [1000], 'back': [4, -6, 1]}
 def std_clocks(n):
     return [clock_of(p, n) for p in PATTERNS.values()]
 
-def exhaustive(maxlen, alphabet=MUTATORS):
+# the context-manager protocol with a real exception: direct __exit__ calls with a triple, and real with statements
+CONTEXT = ['xt:V', 'xt:B', 'wn[]', 'wV[]', 'wB[]', 'wV[sp]', 'wB[sl]', 'wn[sp+rs]', 'wV[rt+el]', 'wB[sp+st]']
+
+def exhaustive(maxlen, alphabet=MUTATORS, must_contain=None, durs=DURS):
+    width = max(len(flat([t])) for t in alphabet)
     for n in range(1, maxlen + 1):
-        clocks = std_clocks(2 * n + 2)
+        clocks = std_clocks(2 * n * width + 2)
         for ops in itertools.product(alphabet, repeat=n):
-            yield {'op': 'last', 'scale': 1, 'durs': DURS, 'ops': list(ops), 'clocks': clocks}
+            if must_contain is not None and not any(t in must_contain for t in ops): continue
+            # a with statement reports all its calls, so those histories are compared call by call
+            yield {'op': 'last' if must_contain is None else 'run', 'scale': 1, 'durs': durs, 'ops': list(ops), 'clocks': clocks}
 
 STEPS = [0, 0, 1, 1, 1, 2, 3, 5, 7, 1000, 10 ** 6]
 BACK = [-1, -1, -2, -5, -1000]
@@ -356,14 +433,20 @@ def rand_token(rng):
     else: t = 'lo:' + rng.choice('TF')
     return t
 
+def rand_context_token(rng):
+    r = rng.random()
+    if r < 0.25: return 'xt:' + rng.choice('VB')
+    body = [rand_token(rng) for _ in range(rng.choice([0, 0, 1, 1, 2, 3]))]
+    return 'w%s[%s]' % (rng.choice('nVVBB'), '+'.join(body))
+
 def rand_case(rng, maxlen):
     n = rng.randint(1, maxlen)
-    ops = [rand_token(rng) for _ in range(n)]
+    ops = [rand_context_token(rng) if rng.random() < 0.12 else rand_token(rng) for _ in range(n)]
     # bias: most histories start the watch early
     if rng.random() < 0.7: ops.insert(rng.randint(0, min(2, len(ops))), rng.choice(['st', 'en', 'rt']))
     scale = rng.choice([1, 1, 4, 1024])
     kind = rng.random()
-    m = 2 * len(ops) + 2
+    m = 2 * len(flat(ops)) + 2
     clock = [rng.choice([0, 100, 5, 10 ** 9])]
     for _ in range(m - 1):
         if kind < 0.55: s = rng.choice(STEPS)                         # monotonic
@@ -382,12 +465,14 @@ def gen_cases(rng, tier):
     # boundary histories first
     yield {'op': 'run', 'scale': 1, 'durs': DURS + ['D'], 'ops': [], 'clocks': std_clocks(2)}
     yield from exhaustive(4 if tier == 'quick' else 5)
+    yield from exhaustive(3, MUTATORS + CONTEXT, must_contain=set(CONTEXT),
+                          durs=[None, 3] if tier == 'quick' else DURS)
     for _ in range(3000 if tier == 'quick' else 60000):
         yield rand_case(rng, 40)
     for _ in range(100 if tier == 'quick' else 2000):
         yield rand_case(rng, 400)
 
-FULL_ALPHABET = MUTATORS + OBSERVERS + ['el:N', 'lo:F']
+FULL_ALPHABET = MUTATORS + OBSERVERS + ['el:N', 'lo:F'] + CONTEXT
 
 def explore(tu, d, clock, depth, alphabet=FULL_ALPHABET):
     """Every call sequence of length <= depth over the alphabet, checked against the property (Ref), by exhaustive
@@ -415,13 +500,13 @@ def explore(tu, d, clock, depth, alphabet=FULL_ALPHABET):
                 for tok in alphabet:
                     sw2 = copy.copy(sw)
                     pos[0] = p0
-                    try:
-                        r = _value(tu, sw2, _call(sw2, tok, 1), 1)
-                    except Exception as e:
-                        r = 'EXN:' + type(e).__name__
-                    entry = '%s;%d;%s' % (r, pos[0] - p0, _snapshot(sw2, 1))
+                    entries = exec_token(tu, sw2, tok, 1, pos)
                     ref2 = ref.copy()
-                    msg = ref2.feed(clock, tok, entry)
+                    ftoks = flat([tok])
+                    msg = None
+                    if len(entries) != len(ftoks): msg = 'the with statement made %d calls, %d expected: %s' % (len(entries), len(ftoks), entries)
+                    for ft, entry in zip(ftoks, entries):
+                        msg = msg or ref2.feed(clock, ft, entry)
                     if msg: return path + [tok], msg, visited, covered
                     key = (repr(sorted(sw2.__dict__.items(), key=lambda kv: kv[0])), pos[0], ref2.key())
                     if key not in nxt: nxt[key] = (sw2, pos[0], ref2, path + [tok])
@@ -436,14 +521,14 @@ def extra_checks(rng, tier):
     depth = 6 if tier == 'quick' else 10
     for d in DURS + ['D']:
         for pname, pat in PATTERNS.items():
-            clock = clock_of(pat, 2 * depth + 2)
+            clock = clock_of(pat, 2 * depth * max(len(flat([t])) for t in FULL_ALPHABET) + 2)
             path, msg, visited, covered = explore(tu, d, clock, depth)
             case = {'op': 'run', 'scale': 1, 'durs': [d], 'ops': path or [], 'clocks': [clock]}
             yield ('all-sequences-upto-%d:%s' % (depth, pname), case,
                    None if msg is None else 'duration %r, clock %s: %s' % (d, pname, msg))
 
 def classify(c, io):
-    if c['op'] == 'last': return 'exhaustive:len%d' % len(c['ops'])
+    if len(c['durs']) > 1: return 'exhaustive%s:len%d' % ('' if c['op'] == 'last' else '-context', len(c['ops']))
     clock = c['clocks'][0]
     mono = all(a <= b for a, b in zip(clock, clock[1:]))
     d = c['durs'][0]
@@ -453,16 +538,19 @@ def trivial(c, io):
     return not c['ops']
 
 def search(rng, budget):
+    yield from exhaustive(3, MUTATORS + CONTEXT, must_contain=set(CONTEXT))
     yield from exhaustive(4)
     for _ in range(budget):
         yield rand_case(rng, 30)
 
 RULE = ('correspondence + oracle: every call sequence of length 1..4 (quick) / 1..5 (thorough) over the 12 state-touching calls {start, stop, '
         'resume, restart, split, elapsed(), elapsed(2), leftover(), leftover(return_none=True), expired, __enter__, __exit__} x durations '
-        '{None, 0, 3, 10^6} x clocks {step 0, +1, +1000, backwards cycle +4,-6,+1}; random histories of length <= 40 and <= 400 over the full '
+        '{None, 0, 3, 10^6} x clocks {step 0, +1, +1000, backwards cycle +4,-6,+1}; every sequence of length 1..3 over those 12 plus 10 '
+        'context-manager tokens (direct __exit__ with the triple of a real ValueError / BaseException-only exception; real `with sw:` '
+        'statements with bodies of 0-2 calls that end normally or raise either class) containing at least one of the latter; random histories of length <= 40 and <= 400 over the full '
         'alphabet incl. has_started/has_stopped/splits, maxima incl. negative ones, durations incl. default/None/negative/10^12, dyadic '
         'scales {1, 1/4, 1/1024}, monotonic, constant, mixed and mostly-backwards clocks.  Oracle only (extra check all-sequences-upto-n): '
-        'EVERY sequence of length <= 6 (quick) / <= 10 (thorough) over the full 17-token alphabet x durations {None, default, 0, 3, 10^6} x '
+        'EVERY sequence of length <= 6 (quick) / <= 10 (thorough) over the full 27-token alphabet (incl. the 10 context-manager tokens) x durations {None, default, 0, 3, 10^6} x '
         'the 4 clocks, by exhaustive exploration of the configuration graph (histories leaving the object with equal __dict__, clock '
         'position and reference state are continued once).  distinct = distinct case JSON; trivial = empty history')
 TRUSTED = ['timeutils.now is replaced by a scripted clock (the property fixes the clock as an input); clock readings, durations and maxima are '
@@ -482,7 +570,9 @@ LEVEL_TEXT = ('Unbounded theorems (induction over all call sequences of any leng
               'it contradicts non-negativity); leftover = max(0, duration - elapsed) and the no-duration cases; expired <-> elapsed > duration; '
               'splits non-decreasing with lengths = successive differences under a monotonic clock, cleared exactly by (re)starts; the full '
               'legality table (13 methods x 3 states): every illegal call raises RuntimeError and leaves watch and clock untouched, every legal '
-              'call of every history returns, no other exception is ever raised; number of clock readings per call. The arithmetic facts are '
+              'call of every history returns, no other exception is ever raised; number of clock readings per call; context-manager protocol: '
+              '__exit__ with or without an exception triple never raises, returns None (the exception of the with body propagates) and stops a '
+              'running watch, and after any with block (any body, raising or not) the watch is stopped. The arithmetic facts are '
               'also proved for every ordered abelian group (not only Z).')
 LEVEL_NOTE = ('Trusted: Coq kernel; the translator tools/gen/gen_C13.py (CPython ast; A-normal form, state kept on raise, fail-closed with baseline '
               'fallback); numbers modelled as Z — the harness scripts clocks/durations/maxima that are integer multiples of 2^-k below 2^53, where '
